@@ -33,10 +33,31 @@ def tiers(tier):
     return {'runs': 12000, 'wall': 70, 'det_runs': 10}
 
 
+def selfref_typearg(h, inside_gen=False):
+    """A user generic subscripted by a union that mentions the generic's own type variable (ListBox[Optional[T]])."""
+    k = h['k']
+    if k == 'gen':
+        return any(selfref_typearg(a, True) for a in h.get('a', []) if isinstance(a, dict))
+    if inside_gen and k in ('union', 'opt', 'pipe'):
+        if any(isinstance(a, dict) and a['k'] == 'tv' and a['n'] == 'T' for a in h['a']):
+            return True
+    return any(selfref_typearg(a, inside_gen) for a in h.get('a', []) or [] if isinstance(a, dict))
+
+
 def generate(rng, run, tier):
     maxlen = 6 if tier != 'thorough' or rng.random() < 0.8 else 40
+    allow_selfref = rng.random() < 0.1      # avoid switch: known finding C01-generic-selfreferential-typearg
+    if rng.random() < 0.004:
+        # ... and a small fraction of runs drives straight at it
+        inner = rng.choice([{'k': 'opt', 'a': [{'k': 'tv', 'n': 'T'}]},
+                            {'k': 'union', 'a': [{'k': 'tv', 'n': 'T'}, {'k': 'cls', 'n': 'bytes'}]}])
+        h = {'k': 'gen', 'n': 'ListBox', 'a': [inner]}
+        o = {'o': 'listbox', 'i': [{'o': 'int', 'v': 1}, {'o': 'str', 'v': 'a'}]}
+        return {'h': h, 'x': o, 'conf': entry.gen_conf(rng), 'draws': [0, 1], 'perturb': None, 'warm_obj': {'o': 'int', 'v': 1}}
     for _ in range(20):
         h = H.gen_hint(rng, rng.choice([1, 2, 3, 3, 4]))
+        if selfref_typearg(h) and not allow_selfref:
+            continue
         try:
             o = H.gen_conforming(rng, h, maxlen=maxlen)
             break
@@ -108,7 +129,13 @@ def execute(case):
 
 
 shrink = c03.shrink
-SIGNATURES = {}
+
+
+def _sig_selfref(case, v):
+    return v.get('kind') == 'false_alarm' and selfref_typearg(case.get('h', {'k': 'x'}))
+
+
+SIGNATURES = {'generic_selfreferential_typearg': _sig_selfref}
 
 
 def describe(case):
